@@ -162,7 +162,8 @@ def run(ctx: Ctx):
     thorough = ctx.tier == "thorough"
     ctx.rule = ("direction 1: every state of MC_Calling op threshold (one segment row under one configuration and "
                 "threshold vector) executed by the real do_call; the rows of one (configuration, vector, BAF value) form "
-                "one table = one call = one record; direction 2: seeded random tables (3..60 rows, random increasing "
+                "one table = one call = one record, the tables built by rotating construction routes (fresh / boolean-masked "
+                "/ permuted / offset row index); direction 2: seeded random tables (3..60 rows, random increasing "
                 "threshold vectors of length 1..12 or the default vector, log2 at / beside thresholds and integer "
                 "crossings, NaN, random BAF through a VariantArray or a baf column). A case is distinct by the whole "
                 "table; non-trivial always.")
@@ -171,7 +172,7 @@ def run(ctx: Ctx):
     cfg = ctx.cfg("mc-thrA", spec="Spec", invariants=["DesignOK"], constants=K.mc_constants(
         ops=["threshold"], ploidies=range(1, 7), females=(False,), max_ulen=4 if thorough else 2, with_default_u=True))
     r, inputs = K.mc_inputs(ctx, cfg, tag="thrA")
-    recs = ctx.execute(K.execute, _table_inputs(inputs, "none"))
+    recs = ctx.execute(K.execute, K.assign_routes(_table_inputs(inputs, "none")))
     ctx.notes["scope_A"] = {"tlc_states": r.distinct, "replayed_states": len(inputs), "tables": len(recs)}
     records += recs
     # ---- scope B: default vector (and, thorough, the one-threshold vectors) x BAF through a VariantArray
@@ -179,7 +180,7 @@ def run(ctx: Ctx):
         ops=["threshold"], ploidies=range(1, 7), females=(False,), max_ulen=1 if thorough else 0, with_default_u=True,
         baf_idx=range(1, 11), vmode="vcf"))
     r, inputs = K.mc_inputs(ctx, cfg, tag="thrB")
-    recs = ctx.execute(K.execute, _table_inputs(inputs, "vcf"))
+    recs = ctx.execute(K.execute, K.assign_routes(_table_inputs(inputs, "vcf"), 1))
     ctx.notes["scope_B"] = {"tlc_states": r.distinct, "replayed_states": len(inputs), "tables": len(recs)}
     records += recs
     # ---- scope C: BAF already a column of the segment table
@@ -187,7 +188,7 @@ def run(ctx: Ctx):
         ops=["threshold"], ploidies=(2, 3), females=(False,), prefs=("chr",), max_ulen=0, with_default_u=True,
         baf_idx=range(1, 11), vmode="column"))
     r, inputs = K.mc_inputs(ctx, cfg, tag="thrC")
-    recs = ctx.execute(K.execute, _table_inputs(inputs, "column"))
+    recs = ctx.execute(K.execute, K.assign_routes(_table_inputs(inputs, "column"), 2))
     ctx.notes["scope_C"] = {"tlc_states": r.distinct, "replayed_states": len(inputs), "tables": len(recs)}
     records += recs
     # ---- design check of the "hence" clause: monotone over a grid of 2000 ratios, cn(log2 0) = 2
@@ -200,14 +201,21 @@ def run(ctx: Ctx):
                       "naming; default vector x BAF {missing, 0/8..8/8} via VariantArray and via a baf column -- every "
                       "dumped state replayed")
     # ---- direction 2
-    rnd = ctx.execute(K.execute, random_inputs(ctx, 6000 if thorough else 500))
+    rnd = ctx.execute(K.execute, K.assign_routes(random_inputs(ctx, 6000 if thorough else 500), 3))
     records += rnd
     for rec in records:
-        ctx.count_input([K.batch_key(rec), rec["rows"]], nontrivial=True)
+        ctx.count_input([K.batch_key(rec), rec.get("route"), rec["rows"]], nontrivial=True)
+        ctx.bump("tables_route_" + rec.get("route", "fresh"))
         _bump(ctx, rec)
     for rec in (records[0], records[len(records) // 2], rnd[0], rnd[-1]):
         ctx.sample(rec)
     verdicts = K.validate_fast(ctx, TRACE, records)
+    oos = {}
+    for r, v in zip(records, verdicts):
+        if not v["scope"]:
+            k = f'{r["vmode"]}/{r.get("route", "fresh")}'
+            oos[k] = oos.get(k, 0) + 1
+    ctx.notes["out_of_scope_tables_by_vmode_route"] = oos
     ctx.notes["rows_judged"] = sum(len(r["rows"]) for r, v in zip(records, verdicts) if v["scope"])
     ctx.notes["rows_out_of_scope"] = sum(len(r["rows"]) for r, v in zip(records, verdicts) if not v["scope"])
     ctx.trusted_base = ["TLC 1.8 evaluation of spec/Calling.tla, spec/Karyotype.tla (incl. its base-10^4 limb arithmetic)",
